@@ -97,7 +97,9 @@ extern "C" void sbv_harness(const char*)
             }
             else
             {
-                // task 0 throws: with raise = true the exception reaches the caller, and the barrier still waits for every task
+                // ONE task (any of them: symbolic choice) throws: with raise = true the exception reaches the caller whichever task
+                // it was and whenever it finished, and the barrier still waits for every task
+                const long thrower = n > 0 ? sbv_range("thrower", 0, n - 1) : 0;
                 try
                 {
                     pool.map(
@@ -107,7 +109,7 @@ extern "C" void sbv_harness(const char*)
                             rec.enter(tnum);
                             rec.count[index]++;
                             rec.finished++;
-                            if (index == 0) throw std::runtime_error("task failed");
+                            if (index == thrower) throw std::runtime_error("task failed");
                         },
                         true);
                 }
